@@ -6,7 +6,8 @@
    every index in Z and every finite composition of view constructors. *)
 From Coq Require Import ZArith List Bool.
 From ADV Require Import C10.Gen C10.Model C10.ModelSparse C10.Spec C10.ProofsIndex C10.ProofsViews C10.ProofsIter C10.ProofsIterSkip C10.ProofsOps C10.ProofsTip C10.ProofsTipGen C10.ProofsOpsView C10.ProofsSparse C10.ProofsSparseT
-                        C10.GenAcc C10.ProofsAcc C10.ProofsPermView C10.ProofsTipAll C10.ProofsTipView.
+                        C10.GenAcc C10.ProofsAcc C10.ProofsPermView C10.ProofsTipAll C10.ProofsTipView
+                        C10.ModelBin C10.ProofsBinView C10.ProofsJoint.
 Import ListNotations.
 Open Scope Z_scope.
 
@@ -456,3 +457,90 @@ Theorem dense_asvector_on_view_refuted :
   (r <- mAsVector false H m ;; ROk (fst r)) = ROk [1; 2; 3; 4; 5; 6; 7; 8; 9] /\
   read_all false H m = ROk [5; 6; 8; 9].
 Proof. exact ProofsSparse.dense_asvector_on_view_refuted. Qed.
+
+(* ---- 6d. binary operations whose receiver AND operands are views of ONE storage ----
+   r.MaddM/MsubM/MmulM(a, b) and r.MdotM(a, b) (row-buffered or column-buffered schedule, chosen by the
+   storageLocation test as coded) where every operand is either the receiver itself or a matrix that no write
+   through the receiver can reach: it lives in another storage, OR in the receiver's own storage on other cells
+   ([indep]: disjoint windows, transposed windows, nested windows of one parent; the two operands may overlap each
+   other arbitrarily).  The receiver ends up with the closed form computed from the elements read BEFORE the call,
+   every cell it does not denote and every other storage is untouched. *)
+Theorem ew_on_views_of_one_storage : forall real f H0 (r a b : mat), wf_in H0 r -> ew_opnd H0 r a -> ew_opnd H0 r b ->
+  exists H1, mEw real f H0 r a b = ROk H1 /\ wf_in H1 r /\ frame r H0 H1 /\
+    forall i j, in_range r i j -> mAT real H1 r i j = ROk (ew_g real H0 f a b i j).
+Proof. exact ProofsBinView.ew_on_views_of_one_storage. Qed.
+(* the loop IS the plain fill of the receiver with the closed form *)
+Theorem ew_loop_is_fill_with_closed_form : forall real f H0 (r a b : mat), wf_in H0 r -> ew_opnd H0 r a -> ew_opnd H0 r b ->
+  mEw real f H0 r a b = fill real (ew_g real H0 f a b) r (mpos real r) H0.
+Proof. exact ew_closed_form. Qed.
+(* the product: the left factor may be the receiver when the right factor lives in ANOTHER storage (row schedule),
+   the right factor may be the receiver (column schedule), both may be windows of the receiver's parent on other
+   cells (column schedule although nothing aliases: still right); non-empty shapes (storageLocation takes &values[0]) *)
+Theorem mdotm_on_views_of_one_storage : forall real H0 (r a b : mat), wf_in H0 r ->
+  0 < d_rows r -> 0 < d_cols r -> 0 < d_cols a ->
+  d_rows a = d_rows r -> d_cols b = d_cols r -> d_cols a = d_rows b ->
+  prod_lopnd H0 r a b -> prod_ropnd H0 r b ->
+  exists H1, mMdotM real H0 r a b = ROk H1 /\ wf_in H1 r /\ frame r H0 H1 /\
+    forall i j, in_range r i j -> mAT real H1 r i j = ROk (dotv real H0 a b i j).
+Proof. exact ProofsBinView.mdotm_on_views_of_one_storage. Qed.
+(* hence: the call on views of one storage and the call on ANY other placement of the same elements -- in particular
+   independent deep copies, which live in pairwise different storages and are therefore [indep] -- leave their
+   receivers with the same elements, each touching nothing but its receiver *)
+Theorem ew_on_views_equals_ew_on_copies : forall real f H (r a b : mat) H' (r' a' b' : mat),
+  wf_in H r -> ew_opnd H r a -> ew_opnd H r b -> wf_in H' r' -> ew_opnd H' r' a' -> ew_opnd H' r' b' ->
+  same_elems real H r H' r' -> same_elems real H a H' a' -> same_elems real H b H' b' ->
+  exists H1 H1', mEw real f H r a b = ROk H1 /\ mEw real f H' r' a' b' = ROk H1' /\
+    frame r H H1 /\ frame r' H' H1' /\ same_elems real H1 r H1' r'.
+Proof. exact ProofsBinView.ew_on_views_equals_ew_on_copies. Qed.
+Theorem mdotm_on_views_equals_mdotm_on_copies : forall real H (r a b : mat) H' (r' a' b' : mat),
+  wf_in H r -> wf_in H' r' -> 0 < d_rows r -> 0 < d_cols r -> 0 < d_cols a ->
+  d_rows a = d_rows r -> d_cols b = d_cols r -> d_cols a = d_rows b ->
+  prod_lopnd H r a b -> prod_ropnd H r b -> prod_lopnd H' r' a' b' -> prod_ropnd H' r' b' ->
+  d_rows r = d_rows r' -> d_cols r = d_cols r' -> same_elems real H a H' a' -> same_elems real H b H' b' ->
+  exists H1 H1', mMdotM real H r a b = ROk H1 /\ mMdotM real H' r' a' b' = ROk H1' /\
+    frame r H H1 /\ frame r' H' H1' /\ same_elems real H1 r H1' r'.
+Proof. exact ProofsBinView.mdotm_on_views_equals_mdotm_on_copies. Qed.
+(* the concrete instance: view.MdotM(view, view) with all three windows in one heap (factors anywhere the receiver's
+   writes cannot reach -- e.g. disjoint or transposed windows of the receiver's own parent) against three
+   independent deep copies made by the model's deep_copy *)
+Theorem mdotm_on_views_equals_mdotm_on_deep_copies : forall real H (r a b : mat),
+  wf_in H r -> 0 < d_rows r -> 0 < d_cols r -> 0 < d_cols a ->
+  d_rows a = d_rows r -> d_cols b = d_cols r -> d_cols a = d_rows b ->
+  indep a r -> wf_in H a -> indep b r -> wf_in H b ->
+  exists Hr cr Ha ca Hb cb, deep_copy real H r = ROk (Hr, cr) /\ deep_copy real Hr a = ROk (Ha, ca) /\
+    deep_copy real Ha b = ROk (Hb, cb) /\
+    exists H1 H1', mMdotM real H r a b = ROk H1 /\ mMdotM real Hb cr ca cb = ROk H1' /\
+      frame r H H1 /\ frame cr Hb H1' /\ same_elems real H1 r H1' cr.
+Proof. exact ProofsBinView.mdotm_on_views_equals_mdotm_on_deep_copies. Qed.
+Example mdotm_three_windows_of_one_parent_nontrivial :
+  let H := [[1; 2; 3; 4; 5; 6; 7; 8; 9; 10; 11; 12; 13; 14; 15; 16]] in
+  let p := new_mat 0 4 4 in
+  let r := DenseP.SLICE p 0 2 0 2 in let a := DenseP.SLICE p 0 2 2 4 in let b := DenseP.T (DenseP.SLICE p 2 4 2 4) in
+  (H1 <- mMdotM false H r a b ;; ROk (store_of H1 0)) = ROk [81; 109; 3; 4; 173; 233; 7; 8; 9; 10; 11; 12; 13; 14; 15; 16] /\
+  dotv false H a b 1 1 = 233.
+Proof. exact mdotm_three_windows_nontrivial. Qed.
+(* the excluded case is false for the code as it is (proposed finding F-MDOTM-SIBLING, C08's F-MDOTM-T seen from
+   C10): left factor = receiver, right factor a DISJOINT window of the same parent -> column schedule -> wrong *)
+Theorem mdotm_left_alias_with_sibling_right_factor_refuted :
+  let H := [[1; 2; 3; 4; 5; 6; 7; 8; 9; 10; 11; 12; 13; 14; 15; 16]] in
+  let p := new_mat 0 4 4 in
+  let r := DenseP.SLICE p 0 2 0 2 in let b := DenseP.SLICE p 2 4 2 4 in
+  wf_in H r /\ wf_in H b /\ cells_disjoint b r /\
+  (H1 <- mMdotM false H r r b ;; read_all false H1 r) = ROk [41; 524; 145; 1836] /\
+  (let H' := [[1; 2; 5; 6]; [11; 12; 15; 16]] in
+   H1 <- mMdotM false H' (new_mat 0 2 2) (new_mat 0 2 2) (new_mat 1 2 2) ;; read_all false H1 (new_mat 0 2 2)) = ROk [41; 44; 145; 156].
+Proof. exact mdotm_left_alias_sibling_refuted. Qed.
+
+(* ---- 4b. the dense JOINT iterator (m.JointIterator(b): Next() as coded, the lexicographic merge of the two
+   zero-skipping iterators incl. the stale index of an exhausted left side): its whole report is a function of the
+   shapes and element functions of the two matrices -- two views (of one storage or not, nested, transposed) report
+   exactly what independent deep copies report *)
+Theorem joint_iterator_on_views_equals_joint_on_copies : forall real H H' (m m' b b' : mat),
+  same_elems real H m H' m' -> same_elems real H b H' b' -> mJoint real H m b = mJoint real H' m' b'.
+Proof. exact joint_on_views_equals_joint_on_copies. Qed.
+Example joint_iterator_nontrivial :
+  let H := [[1; 2; 3; 4; 0; 6; 7; 8; 9]] in
+  let p := new_mat 0 3 3 in
+  mJoint false H (DenseP.SLICE p 0 2 0 2) (DenseP.T (DenseP.SLICE p 1 3 1 3))
+  = ROk [0; 0; 1; 1; 0; 0; 1; 1; 2; 8; 1; 0; 1; 4; 6; 1; 1; 0; 0; 9].
+Proof. exact joint_nontrivial. Qed.
